@@ -186,8 +186,7 @@ class CacheHarness(thrx.Harness):
     self.mod = carbon.cache
     self.proc = carbon.cache.CacheFeedingProcessor()
     self.cache = self.proc.cache
-    self.lock = thrx.SchedLock(s, 'cache')
-    self.cache.lock = self.lock
+    self.lock = thrx.replace_locks(self.cache, s)
     events.cacheOverflow.addHandler(self._on_overflow)
     for m, ts, v in p.get('init', ()):
       self.cache.store(m, (ts, v))
